@@ -433,6 +433,11 @@ func Run[C any](t *testing.T, p Prop[C]) {
 	S.sub(p.Name).Passed = passed
 	S.mu.Unlock()
 	if !ok && lastCase != nil {
+		if strings.HasPrefix(lastErr.Error(), "harness:") {
+			// the check itself could not be carried out: inconclusive, never a verdict
+			fmt.Printf("HARNESS-ERROR property=%s check=%s %s\n  case=%s\n", PropertyID, p.Name, firstLine(lastErr.Error()), firstLine(string(mustJSON(*lastCase))))
+			return
+		}
 		ReportViolation(t, p.Name, *lastCase, lastErr)
 	}
 }
